@@ -30,6 +30,7 @@ package main
 // element of package time: it only matches itself), any other byte b = 100 + b.
 
 import (
+	"encoding/json"
 	"fmt"
 	"go/ast"
 	"go/parser"
@@ -262,32 +263,57 @@ func (ix *pkgIndex) resolveStrings(e ast.Expr, fd *ast.FuncDecl, depth int) ([]s
 // value as layout, and returns the ranged expression.
 func parseLoop(fd *ast.FuncDecl) ast.Expr {
 	var ranged ast.Expr
+	isParse := func(ce *ast.CallExpr) bool {
+		se, ok := ce.Fun.(*ast.SelectorExpr)
+		if !ok || len(ce.Args) == 0 {
+			return false
+		}
+		p, ok := se.X.(*ast.Ident)
+		return ok && p.Name == "time" && (se.Sel.Name == "ParseInLocation" || se.Sel.Name == "Parse")
+	}
 	ast.Inspect(fd.Body, func(x ast.Node) bool {
-		rs, ok := x.(*ast.RangeStmt)
-		if !ok || ranged != nil {
+		if ranged != nil {
 			return true
 		}
-		val, _ := rs.Value.(*ast.Ident)
-		if val == nil {
-			return true
+		switch st := x.(type) {
+		case *ast.RangeStmt:
+			// for _, l := range X { ... time.Parse(l, ...) }   /   for i := range X { ... time.Parse(X[i], ...) }
+			val, _ := st.Value.(*ast.Ident)
+			key, _ := st.Key.(*ast.Ident)
+			ast.Inspect(st.Body, func(y ast.Node) bool {
+				ce, ok := y.(*ast.CallExpr)
+				if !ok || !isParse(ce) {
+					return true
+				}
+				if a, ok := ce.Args[0].(*ast.Ident); ok && val != nil && a.Name == val.Name {
+					ranged = st.X
+				}
+				if ie, ok := ce.Args[0].(*ast.IndexExpr); ok && key != nil {
+					if ix, ok := ie.Index.(*ast.Ident); ok && ix.Name == key.Name {
+						ranged = ie.X
+					}
+				}
+				return true
+			})
+		case *ast.ForStmt:
+			// for i := 0; i < len(X); i++ { ... time.Parse(X[i], ...) }  (also through l := X[i])
+			ast.Inspect(st.Body, func(y ast.Node) bool {
+				ce, ok := y.(*ast.CallExpr)
+				if !ok || !isParse(ce) {
+					return true
+				}
+				arg := ce.Args[0]
+				if id, ok := arg.(*ast.Ident); ok {
+					if d := localDef(fd, id.Name); d != nil {
+						arg = d
+					}
+				}
+				if ie, ok := arg.(*ast.IndexExpr); ok {
+					ranged = ie.X
+				}
+				return true
+			})
 		}
-		ast.Inspect(rs.Body, func(y ast.Node) bool {
-			ce, ok := y.(*ast.CallExpr)
-			if !ok || len(ce.Args) == 0 {
-				return true
-			}
-			se, ok := ce.Fun.(*ast.SelectorExpr)
-			if !ok {
-				return true
-			}
-			if p, ok := se.X.(*ast.Ident); !ok || p.Name != "time" || (se.Sel.Name != "ParseInLocation" && se.Sel.Name != "Parse") {
-				return true
-			}
-			if a, ok := ce.Args[0].(*ast.Ident); ok && a.Name == val.Name {
-				ranged = rs.X
-			}
-			return true
-		})
 		return true
 	})
 	return ranged
@@ -573,6 +599,28 @@ func genTimeLayouts(outDir string) (string, error) {
 	emit("dateTimeParse", "DateTimeType")
 	emit("dateParse", "DateType")
 	emit("timeParse", "TimeType")
+	// raw layouts (bytes) for the text-level model Spine.TimeText, and one machine-readable line for the harness
+	rawList := func(ls []string) string {
+		var xs [][]int
+		for _, l := range ls {
+			var bs []int
+			for i := 0; i < len(l); i++ {
+				bs = append(bs, int(l[i]))
+			}
+			xs = append(xs, bs)
+		}
+		return leanListOfLists(xs)
+	}
+	var fmtRaw []string
+	if astFmtKnown {
+		fmtRaw = []string{format}
+	}
+	fmt.Fprintf(&b, "/-- static: the formatting layout as bytes (a list of one element, empty when not recovered) -/\ndef dateTimeFormatRaw : List (List Nat) := %s\n\n", rawList(fmtRaw))
+	fmt.Fprintf(&b, "/-- static: the layouts of the three getters as bytes, in the order they are tried -/\ndef dateTimeParseRaw : List (List Nat) := %s\n\ndef dateParseRaw : List (List Nat) := %s\n\ndef timeParseRaw : List (List Nat) := %s\n\n", rawList(parse["DateTimeType"]), rawList(parse["DateType"]), rawList(parse["TimeType"]))
+	{
+		js, _ := json.Marshal(map[string]any{"format": fmtRaw, "rounds": rounds, "utc": utc, "dt": parse["DateTimeType"], "date": parse["DateType"], "tod": parse["TimeType"], "parseKnown": astParseKnown, "formatKnown": astFmtKnown})
+		fmt.Fprintf(&b, "-- HARNESS %s\n\n", js)
+	}
 	b.WriteString("end Spine.Generated.TimeLayouts\n")
 	if err := writeFile(outDir, "TimeLayouts.lean", b.String()); err != nil {
 		return "", err
